@@ -43,6 +43,65 @@ def sym_controls():
     return ctl
 
 
+def reencoded_png(d, enc, flip=False):
+    """the picture of a projected segno PNG (palette / grey, filters None and Up) written again in another legal encoding and projected"""
+    import struct
+    import zlib
+    from . import project
+    w, depth = d['width'], d['depth']
+    stride = (w * depth + 7) // 8
+    rows, prev = [], [0] * stride
+    for ln in d['lines']:
+        cur = list(ln['data']) if ln['ft'] == 0 else [(a + b) % 256 for a, b in zip(ln['data'], prev)]
+        rows.append(cur)
+        prev = cur
+
+    def rgba(row, x):
+        bit = x * depth
+        idx = (row[bit // 8] >> (8 - depth - bit % 8)) & ((1 << depth) - 1)
+        if d['ctype'] == 0:
+            g = idx * 255 // ((1 << depth) - 1)
+            return [g, g, g, 0 if d['trns_grey'] == idx else 255]
+        return list(d['plte'][idx]) + [d['trns'][idx] if idx < len(d['trns']) else 255]
+    px = [[rgba(r, x) for x in range(w)] for r in rows]
+    if flip:
+        px[5][7] = [(px[5][7][0] + 128) % 256] + px[5][7][1:]
+    if enc == 'rgba':
+        ctype, bd, bpp = 6, 8, 4
+        raw = [[c for p in r for c in p] for r in px]
+    elif enc == 'greyalpha':          # loses the hue: must be rejected for a blue / yellow picture
+        ctype, bd, bpp = 4, 8, 2
+        raw = [[c for p in r for c in ((p[0] + p[1] + p[2]) // 3, p[3])] for r in px]
+    else:
+        ctype, bd, bpp = 3, 8, 1
+        pal = sorted({tuple(p) for r in px for p in r})
+        raw = [[pal.index(tuple(p)) for p in r] for r in px]
+
+    def paeth(a, b, c):
+        pp = a + b - c
+        pa, pb, pc = abs(pp - a), abs(pp - b), abs(pp - c)
+        return a if pa <= pb and pa <= pc else (b if pb <= pc else c)
+    out, prev = bytearray(), [0] * len(raw[0])
+    for y, cur in enumerate(raw):
+        ft = (1, 3, 4, 2, 0)[y % 5] if enc == 'rgba' else (1 if enc == 'palette_sub' else 4)
+        out.append(ft)
+        for i, v in enumerate(cur):
+            a = cur[i - bpp] if i >= bpp else 0
+            b = prev[i]
+            c = prev[i - bpp] if i >= bpp else 0
+            pred = {0: 0, 1: a, 2: b, 3: (a + b) // 2, 4: paeth(a, b, c)}[ft]
+            out.append((v - pred) % 256)
+        prev = cur
+
+    def chunk(name, body):
+        return struct.pack('>I', len(body)) + name + body + struct.pack('>I', zlib.crc32(name + body) & 0xffffffff)
+    data = b'\x89PNG\r\n\x1a\n' + chunk(b'IHDR', struct.pack('>2I5B', w, len(px), bd, ctype, 0, 0, 0))
+    if ctype == 3:
+        data += chunk(b'PLTE', b''.join(bytes(p[:3]) for p in pal)) + chunk(b'tRNS', bytes(p[3] for p in pal))
+    data += chunk(b'IDAT', zlib.compress(bytes(out))) + chunk(b'IEND', b'')
+    return project.png(data)
+
+
 def render_controls():
     specs = {'version': 1, 'kind': 'png', 'kw': {'scale': 2, 'dark': 'darkblue', 'light': 'yellow'}, 'seed': 0}
     base = props_render.raster_obs(specs)
@@ -59,6 +118,12 @@ def render_controls():
     mut('PNG: palette colour changed', {('C09', 'pixels')}, lambda o: o['doc']['plte'][0].__setitem__(0, (o['doc']['plte'][0][0] + 1) % 256), base)
     mut('PNG: bad chunk CRC', {('C09', 'container')}, lambda o: o['doc'].__setitem__('crc_ok', False), base)
     mut('PNG: border argument differs', {('C09', 'dimensions')}, lambda o: o.__setitem__('border', 3), base)
+    # the same picture in other legal PNG encodings must be accepted: RGBA with rotating Sub / Average / Paeth filters, palette with Sub
+    for name, enc in (('RGBA, filters Sub/Average/Paeth/Up/None', 'rgba'), ('palette, filter Sub', 'palette_sub'), ('grey+alpha, Paeth', 'greyalpha')):
+        mut('PNG re-encoded: ' + name, set() if enc != 'greyalpha' else {('C09', 'pixels')},
+            lambda o, enc=enc: o.__setitem__('doc', reencoded_png(o['doc'], enc)), base)
+    mut('PNG re-encoded as RGBA, one pixel changed', {('C09', 'pixels')},
+        lambda o: o.__setitem__('doc', reencoded_png(o['doc'], 'rgba', flip=True)), base)
     svg = props_render.vector_obs({'version': 1, 'kind': 'svg', 'kw': {'scale': 2, 'light': 'yellow'}, 'seed': 0, 'family': 'vector'})
     mut('unmodified SVG', set(), lambda o: None, svg)
     mut('SVG: one stroke one module longer', {('C10', 'cover_exact')}, lambda o: [p for p in o['doc']['paths'] if p['kind'] == 'stroke'][0]['ops'][1].__setitem__('a', [p for p in o['doc']['paths'] if p['kind'] == 'stroke'][0]['ops'][1]['a'] + 1000000), svg)
